@@ -24,6 +24,10 @@ UNIT = Unit(
         Adt(file=T, kw="enum", name="Pat", rules=["attrs"]),
         Adt(file=CM, kw="struct", name="Column", rules=["attrs", "pubfields", ("strip", "tast::")]),
         Adt(file=CM, kw="struct", name="Row", rules=["attrs", "pubfields", ("strip", "tast::")]),
+        Raw(text="pub mod core {\nuse vstd::prelude::*;\nuse super::*;\n"),
+        Adt(file="crates/compiler/src/core.rs", kw="enum", name="Expr", rules=["attrs", ("strip", "tast::"), ("strip", "common_defs::")]),
+        Adt(file="crates/compiler/src/core.rs", kw="struct", name="Arm", rules=["attrs"]),
+        Raw(text="}\n"),
         Raw(path="contracts/rows.shim.rs"),
         Fn(file=CM, name="make_rows", ret="r", attrs="#[verifier::loop_isolation(false)]",
            pre_rewrites=[("for Arm { pat, body } in arms.iter() {", "let mut __ai: usize = 0; while __ai < arms.len() { let Arm { pat, body } = &arms[__ai]; __ai += 1;")],
@@ -40,13 +44,15 @@ UNIT = Unit(
            pre_rewrites=[("for (i, col) in self.columns.iter().enumerate() {", "let mut __ci: usize = 0; while __ci < self.columns.len() { let i = __ci; let col = &self.columns[__ci]; __ci += 1;")],
            rewrites=[("if col.var == var {", "if string_eq_str(&col.var, var) {"), ("let mut index = None;", "let mut index: Option<usize> = None;")],
            ghost=[("?return Some(col);", "line-before", "proof { let k = i as int; assert(col == old(self).columns@[k]); assert(self.columns@ == old(self).columns@.remove(k)); assert(col.var@ == var@); "
-                   "assert(forall|j: int| 0 <= j < k ==> (#[trigger] old(self).columns@[j]).var@ != var@); }")],
+                   "assert(forall|j: int| 0 <= j < k ==> (#[trigger] old(self).columns@[j]).var@ != var@); assert(col_of(*old(self), var@, k)); }")],
            obligation="removes exactly the FIRST column for the variable and returns it; other columns keep their order; None iff there is none",
            contract="""ensures final(self).body == old(self).body,
             r is None ==> final(self).columns@ == old(self).columns@ && forall|j: int| 0 <= j < old(self).columns@.len() ==> (#[trigger] old(self).columns@[j]).var@ != var@,
             r matches Some(c) ==> exists|k: int| 0 <= k < old(self).columns@.len() && c == #[trigger] old(self).columns@[k] && c.var@ == var@
                 && final(self).columns@ == old(self).columns@.remove(k)
-                && forall|j: int| 0 <= j < k ==> (#[trigger] old(self).columns@[j]).var@ != var@,""",
+                && forall|j: int| 0 <= j < k ==> (#[trigger] old(self).columns@[j]).var@ != var@,
+            r is None ==> no_col(*old(self), var@),
+            r matches Some(c) ==> exists|k: int| #[trigger] col_of(*old(self), var@, k) && c == old(self).columns@[k] && final(self).columns@ == old(self).columns@.remove(k),""",
            loop_fn=lambda k, header, kw: (
                "invariant_except_break index is None, forall|j: int| 0 <= j < __ci ==> (#[trigger] old(self).columns@[j]).var@ != var@,\n"
                "invariant __ci <= self.columns@.len(), self.columns@ == old(self).columns@, self.body == old(self).body,\n"
@@ -80,5 +86,28 @@ UNIT = Unit(
            loop_fn=lambda k, header, kw: ("invariant __ri <= rows@.len(), rows@.len() == rows0.len(), rows0 == rows_in@,\n"
                                           "  forall|i: int| 0 <= i < __ri ==> moved(rows0[i], #[trigger] rows@[i]),\n"
                                           "  forall|i: int| __ri <= i < rows@.len() ==> rows@[i] == rows0[i],\ndecreases rows@.len() - __ri,")),
+        Fn(file=CM, name="compile_bool_case", ret="r", attrs="#[verifier::loop_isolation(false)]", rules=["attrs", ("strip", "tast::")],
+           pre_rewrites=[("let body_ty = rows.first().map(|r| r.get_ty()).unwrap_or(Ty::TUnit);", "let body_ty = first_row_ty(&rows);"),
+                         ("for mut r in rows {", "let ghost rows0 = rows@; let mut __rv = rows; while __rv.len() > 0 { let mut r = __rv.remove(0);")],
+           rewrites=[("-> core::Expr", "-> CoreExpr"),
+                     ("let mut true_rows = vec![];", "let mut true_rows: Vec<Row> = Vec::new();"), ("let mut false_rows = vec![];", "let mut false_rows: Vec<Row> = Vec::new();"),
+                     ('if value.as_bool().expect("expected boolean primitive pattern") {', "if (match value.as_bool() { Some(__b) => __b, None => { proof { assume(false); } unreached() } }) {"),
+                     ('_ => unreachable!("expected bool pattern"),', "_ => { proof { assume(false); } }"),
+                     (re.compile(r"\.clone\(\)"), ".vclone()", "*"),
+                     (re.compile(r"core::ebool\("), "core_ebool(", 2),
+                     (re.compile(r"body: compile_rows\("), "body: compile_rows_rec(", 2)],
+           obligation="the rows are split on the boolean scrutinee without changing their relative order: a row goes (minus the test) to the side "
+                      "it tests, to both sides if it does not test the variable; the result switches on that variable with exactly these two sub-matrices",
+           contract="""ensures exists|tr: Seq<Row>, fr: Seq<Row>| bool_split(rows@, rows@.len() as int, bvar.name@, true, tr) && bool_split(rows@, rows@.len() as int, bvar.name@, false, fr)
+                && (r matches core::Expr::EMatch { expr, arms, default, ty: _ } && *expr == var_core(*bvar) && default is None && arms@.len() == 2
+                    && arms@[0].lhs == ebool_spec(true) && arms@[0].body == #[trigger] rows_core(tr, bvar.ty)
+                    && arms@[1].lhs == ebool_spec(false) && arms@[1].body == #[trigger] rows_core(fr, bvar.ty)),""",
+           ghost=[("@loop:0:body", "", "let ghost t_b = true_rows@; let ghost f_b = false_rows@; let ghost n_b = rows0.len() - __rv@.len();"),
+                  ("@loop:0:end", "", "proof { reveal_with_fuel(bool_split, 2); "
+                                      "if true_rows@.len() > t_b.len() { assert(true_rows@.drop_last() =~= t_b); } "
+                                      "if false_rows@.len() > f_b.len() { assert(false_rows@.drop_last() =~= f_b); } }")],
+           loop_fn=lambda k, header, kw: ("invariant __rv@.len() <= rows0.len(), __rv@ == rows0.subrange(rows0.len() - __rv@.len(), rows0.len() as int), rows0 == rows@,\n"
+                                          "  bool_split(rows0, rows0.len() - __rv@.len(), bvar.name@, true, true_rows@), bool_split(rows0, rows0.len() - __rv@.len(), bvar.name@, false, false_rows@),\n"
+                                          "decreases __rv@.len(),")),
     ],
 )
